@@ -533,7 +533,7 @@ def values_for(ctx, cls_name, attr, rng, shared):
     if attr == "magnetization":
         valid = [1e5, 2e5, 5e4]
     if valid is not None:
-        vs += mutated_valid(doc, valid, rng, ctx.n(4, 40))
+        vs += mutated_valid(doc, valid, rng, ctx.n(4, 120))
     if attr == "faces":
         vs = [as_indices(v) for v in vs]
     return vs
@@ -815,7 +815,7 @@ def shrink_value(cls_name, attr, clause, v):
 def sweep(ctx, big):
     """the search: the oracle over classes x attributes x grammar, both routes"""
     rng = ctx.rng
-    shared = battery_types() + battery_shapes(rng, ctx.n(10, 150) * (3 if big else 1))
+    shared = battery_types() + battery_shapes(rng, ctx.n(10, 600) * (3 if big else 1))
     found = {}
     for cls_name, (make, _, attrs) in get_specs().items():
         for attr, doc in attrs.items():
@@ -957,7 +957,7 @@ def robust_eval(ctx, name, txt):
 
 def correspondence(ctx, built):
     rng = ctx.rng
-    shared = battery_types() + battery_shapes(rng, ctx.n(10, 200))
+    shared = battery_types() + battery_shapes(rng, ctx.n(10, 400))
     seen_rows = set()
     cases, meta = [], []
     for cls_name, attr, via, ccls, cattr in model_rows():
